@@ -389,6 +389,6 @@ pub fn def() -> PropDef {
         level: "exploration",
         rule: "gc_grace_period in {0,30,300,600} s x retention_days 0-3 x both catalog back-ends; histories of 2-15 (thorough 27) ops from {register a chunk whose newest row is cut-off + {-2 d,-1 h,-45 s,+45 s,+1 h,+1 d}, optionally straddling the cut-off; unreference (catalog delete + the public schedule_deletion, as the call sites do); pin / unpin by a query; 11/43/310/700 s pass; compaction cycle (GC + retention + persist) under a generated schedule, optionally with a pin taken while the k-th delete request is in flight and / or a crash at a generated request; restart}; final phase: restart, grace+5 s pass, one cycle. Oracle at every physical DELETE: the path was unreferenced for >= grace (logical time, +-3 s ambiguity), is not pinned at that instant, is not registered in the catalog, is a known chunk file and not a metadata object; every chunk retention dropped has max_ts < the cut-off computed after the cycle; every deletion persisted by a completed cycle is carried out by the final phase. Non-trivial = a file was deleted, or a pinned / straddling candidate or owed persisted deletion was present.",
         assumptions: &["elapsed time = stored scheduling instants moved into the past (hook + rewrite of the persisted file)", "retention is judged with the cut-off computed after the call, which is >= any cut-off used inside it"],
-        subs: || vec![Box::new(Sub::<Case> { name: "history", cases: |t| t.scale(3_000, 10), strategy, exec })],
+        subs: || vec![Box::new(Sub::<Case> { name: "history", cases: |t| t.scale(15_000, 5), strategy, exec })],
     }
 }
